@@ -158,9 +158,13 @@ def covering(rec, rng, quick):
             if L > 7:
                 continue
             order = [int(x) for x in rng.permutation(L)]
+            # reordering fermionic modes brings signs whose convention the documentation does not fix: unsorted site lists only
+            # for sites without Jordan-Wigner string
+            fermionic = bool(np.any(fam().JW_exponent))
             index_map, pos = [], 0
             for l in Ls:
-                index_map.append(sorted(order[pos:pos + l]))
+                # both sorted and unsorted site lists: local site j goes to site index_map[.][j] (documented)
+                index_map.append(sorted(order[pos:pos + l]) if (k % 2 or fermionic) else order[pos:pos + l])
                 pos += l
             site = fam()
             inp = {'family': fname, 'index_map': index_map}
